@@ -220,7 +220,13 @@ def check_property(prop, tier, seed, modules, jobs=None, only=None, verbose=Fals
                     crashes.append({"id": ob.id, "reason": "canary counterexample does not replay natively: %s" % rp})
             continue
         if r["verdict"] == "engine-error":
-            crashes.append(r)
+            if getattr(ob, "optional", False) and "outside an exploration" in str(r.get("reason")):
+                # a symbolic value leaked into amoco's global state on an earlier path: the
+                # exploration of this (seeded, optional) obligation is abandoned, nothing is claimed
+                r["verdict"] = "undecided"
+                not_attempted.append(r)
+            else:
+                crashes.append(r)
         elif r["verdict"] == "proved":
             if r.get("concrete_fail"):
                 # symbolic verdict and CPython disagree
